@@ -100,9 +100,24 @@ MUTANTS = [
     ('z_switch_le', ['C06'], 'C06.SWITCH', [(ZH, 'if (id < static_cast<IntType>(kExactBinNum)) return zipf_cdf_.at(id);', 'if (id <= static_cast<IntType>(kExactBinNum)) return zipf_cdf_.at(id);', 1)], 'reader reads one past the exact table'),
     ('z_unchecked_access', ['C06'], 'C06.ACCESS', [(ZH, '      const auto cdf_val = zipf_cdf_.at(pos);', '      const auto cdf_val = zipf_cdf_[pos];', 1)], 'unchecked table access'),
     ('z_end_pos', ['C06'], 'C06.RANGE', [(ZH, 'int64_t end_pos = n_ - 1;', 'int64_t end_pos = n_;', 1)], 'search interval one bin too wide'),
+    ('e_public_reset', ['C16'], 'C16.STEP', [(EH, '  [[nodiscard]] auto GetMinEpoch() const  //\n      -> size_t;\n', '  [[nodiscard]] auto GetMinEpoch() const  //\n      -> size_t;\n\n  void ResetEpochs() { global_epoch_.store(kInitialEpoch, std::memory_order_release); }\n', 1)], 'a new public member rewinds the global epoch (non-anchor public members are analysed on their own)'),
+    ('p_public_force_unlock', ['C01'], 'C01.WHO', [(PH, '  constexpr PessimisticLock() = default;\n', '  constexpr PessimisticLock() = default;\n\n  void ForceUnlock() { lock_.store(0UL, std::memory_order_release); }\n', 1)], 'a new public member clears the lock word'),
+    # ---- hand mutants, batch 3
+    ('e_node_created_late', ['C20', 'C17', 'C16'], 'C20.ALLOC', [(E, 'if ((next_epoch & kLowerMask) == 0UL) {', 'if ((cur_epoch & kLowerMask) == 0UL) {', 1)], 'list node for a new range created one epoch late: the list of the boundary epoch is filed in the old node'),
+    ('e_dtor_leaks_last', ['C20'], 'C20', [(E, '  while (pro_next != nullptr) {\n    auto *current = pro_next;', '  while (pro_next->next != nullptr) {\n    auto *current = pro_next;', 1)], 'destructor leaks the oldest node'),
+    ('e_no_unique', ['C20', 'C16'], 'C16.SORT', [(E, '  auto &&end_iter = std::unique(protected_epochs.begin(), protected_epochs.end());\n  protected_epochs.erase(end_iter, protected_epochs.end());\n', '', 1)], 'duplicates kept in the list'),
+    ('e_lookup_ge', ['C17', 'C20'], 'C', [(EH, 'while (node->upper_epoch_ > upper_epoch) {', 'while (node->upper_epoch_ >= upper_epoch && node->next != nullptr) {', 1)], 'node lookup walks one node too far'),
+    ('e_lookup_index_upper', ['C17', 'C20'], 'C', [(EH, 'return node->epoch_lists_.at(epoch & kLowerMask);', 'return node->epoch_lists_.at((epoch + 1) & kLowerMask);', 1)], 'list slot of the neighbouring epoch'),
+    ('ep_enter_relaxed_load', ['C17'], 'C', [(EP, 'current_->load(kAcquire)', 'current_->load(kRelaxed)', 1)], 'EnterEpoch reads the global epoch relaxed'),
+    ('i_hasid_inverted_cache', ['C05'], 'C05', [(I, '  return id_.use_count() > 0;', '  return id_.use_count() > 1;', 1)], 'HasID false while only the holder owns the id: a new ID on every call'),
+    ('z_approx_lower', ['C06'], 'C06', [(ZH, 'if (id < static_cast<IntType>(kExactBinNum)) return zipf_cdf_.at(id);', 'if (id < static_cast<IntType>(kExactBinNum)) return zipf_cdf_.at(id + 1);', 1)], 'approximate CDF reads the neighbouring exact bin'),
 ]
 
 REFACTORS = [
+    ('r_e_boundary_cur_mask', ['C20', 'C16', 'C17'], [(E, 'if ((next_epoch & kLowerMask) == 0UL) {', 'if ((cur_epoch & kLowerMask) == kLowerMask) {', 1)], 'node boundary tested on the current epoch (all lower bits set)'),
+    ('r_e_boundary_mod', ['C20', 'C16', 'C17'], [(E, 'if ((next_epoch & kLowerMask) == 0UL) {', 'if (next_epoch % kCapacity == 0UL) {', 1)], 'node boundary as a remainder'),
+    ('r_e_boundary_not', ['C20', 'C16', 'C17'], [(E, 'if ((next_epoch & kLowerMask) == 0UL) {', 'if (!(next_epoch & kLowerMask)) {', 1)], 'node boundary with operator!'),
+    ('r_e_dtor_for', ['C20'], [(E, '  auto *pro_next = protected_lists_;\n  while (pro_next != nullptr) {\n    auto *current = pro_next;\n    pro_next = current->next;\n    delete current;\n  }', '  for (auto *node = protected_lists_; node != nullptr;) {\n    auto *const following = node->next;\n    delete node;\n    node = following;\n  }', 1)], 'destructor walk as a for loop'),
     ('r_p_unlocksix_and', ['C01', 'C08', 'C02'], [(P, 'lock_.fetch_xor(kSIXLock, kRelease);', 'lock_.fetch_and(~kSIXLock, kRelease);', 1)], 'fetch_and(~K) instead of fetch_xor(K)'),
     ('r_o_lockx_plus', ['C01', 'C09'], [(O, 'lock->compare_exchange_weak(*cur, *cur | kXLock, kAcquire, kRelaxed);\n      },\n      &lock_, &cur);', 'lock->compare_exchange_weak(*cur, *cur + kXLock, kAcquire, kRelaxed);\n      },\n      &lock_, &cur);', 1)], '+ instead of | where the guard implies the bit is clear'),
     ('r_p_upgrade_fence', ['C08'], [(P, 'return cur == kSIXLock && lock->compare_exchange_weak(cur, kXLock, kAcquire, kRelaxed);', 'if (cur != kSIXLock || !lock->compare_exchange_weak(cur, kXLock, kRelaxed, kRelaxed)) return false;\n        std::atomic_thread_fence(kAcquire);\n        return true;', 1)], 'acquire fence after a relaxed CAS; if instead of &&'),
